@@ -392,6 +392,7 @@ def _vertex_average_shape(fv):
 
 
 ELEM_TABLES = {"integration_elements", "normals", "volumes", "jacobians", "jac_inv_trans", "diameters", "centroids", "domain_indices", "local2global", "local_multipliers", "normal_multipliers"}
+ELEM_CALLS = {"local2global"}  # grid_data.local2global(element, local points)
 NDARRAY_METHODS = {"reshape", "ravel", "flatten", "astype", "dot", "sum", "transpose", "copy", "conj", "conjugate", "tolist", "squeeze"}
 
 
@@ -411,7 +412,12 @@ def repo_lints(ctx):
                         and all(isinstance(t, ast.Name) for t in node.target.elts):
                     n_loops += 1
                     pos = node.target.elts[0].id
+                    item = node.target.elts[1].id
                     for sub in ast.walk(node):
+                        # calls whose first argument is an element number (the geometry map of one element)
+                        if isinstance(sub, ast.Call) and isinstance(sub.func, ast.Attribute) and sub.func.attr in ELEM_CALLS and sub.args and isinstance(sub.args[0], ast.Name) and sub.args[0].id == pos \
+                                and ("elements" in unparse(node.iter) or any(isinstance(o, (ast.Subscript, ast.Call)) and item in {x.id for x in ast.walk(o) if isinstance(x, ast.Name)} for o in ast.walk(node) if o is not sub)):
+                            bad1.append((rel, qn, sub.lineno, unparse(sub)[:70]))
                         # the table as an attribute (grid_data.normals) or as a parameter of the same name handed in by the caller
                         tname = sub.value.attr if isinstance(sub, ast.Subscript) and isinstance(sub.value, ast.Attribute) else (
                             sub.value.id if isinstance(sub, ast.Subscript) and isinstance(sub.value, ast.Name) and sub.value.id in arg_names(fn) else None)
